@@ -3,6 +3,7 @@ package checks
 import (
 	"fmt"
 	"sort"
+	"verif/mc/core"
 
 	"verif/mc/ref"
 	"verif/mc/store"
@@ -82,6 +83,12 @@ func betweenAtoms(f *ref.Expr, lits []string) []*ref.Expr {
 	for _, p := range orderedPairs(lits) {
 		out = append(out, ref.Btw(f.Clone(), ref.S(p[0]), ref.S(p[1])))
 	}
+	// equal bounds: "great or equals than x and less or equals than y" holds for exactly x
+	for i, l := range lits {
+		if i%2 == 0 {
+			out = append(out, ref.Btw(f.Clone(), ref.S(l), ref.S(l)))
+		}
+	}
 	return out
 }
 
@@ -104,6 +111,8 @@ func c01FuncAtoms() []*ref.Expr {
 		ref.Bin("<", fv(), ref.N(2)),
 		ref.Bin(">", iv(), ref.Fl(1.5)),
 		ref.Btw(iv(), ref.N(2), ref.N(10)),
+		ref.Btw(iv(), ref.N(2), ref.N(2)),
+		ref.Btw(fv(), ref.Fl(1.5), ref.Fl(1.5)),
 		ref.Btw(fv(), ref.Fl(0.5), ref.Fl(2.0)),
 		ref.In(iv(), ref.N(1), ref.N(10)),
 		ref.Bin("=", ref.Call("strlen", ref.Key()), ref.N(2)),
@@ -163,6 +172,16 @@ func regexAtoms() []*ref.Expr {
 		ref.Bin("^=", ref.Bin("+", ref.Key(), ref.Value()), ref.Bin("+", ref.Key(), ref.S("1"))),
 	)
 	return out
+}
+
+func init() {
+	// reasons for which the reference left evaluations undefined, as counters
+	core.UnitEndHooks = append(core.UnitEndHooks, func(r *core.Reporter) {
+		for why, n := range ref.DomainStats {
+			r.Count("undefined: "+why, n)
+			delete(ref.DomainStats, why)
+		}
+	})
 }
 
 // ---- stores --------------------------------------------------------------
